@@ -22,6 +22,9 @@ def deductive(tier="quick", seed=0):
     from lemmas import sums
 
     d.obligations.extend(sums.prove_sum_ext())
+    from lemmas import symplectic
+
+    d.obligations.extend(symplectic.obligations())
     can = run_tasks(TS.canary_tasks(C))
     d.errors.extend(can.errors)
     d.canaries = TS.canary_summary(can)
